@@ -1,9 +1,12 @@
 package c16
 
 import (
+	"strings"
+
 	"encoding/binary"
 	"encoding/json"
 	"fmt"
+	"github.com/go-netty/go-netty/codec/frame"
 	"io"
 	"sync"
 	"time"
@@ -95,6 +98,136 @@ func runRecovery(c *core.Ctx) {
 		}
 		rig.Dispose()
 	}
+}
+
+// failOn is the application handler of the packet-mode trials: it records every message and fails (panics) on the
+// ones marked as such; exceptions are consumed, the channel stays open.
+type failOn struct {
+	keepOpen
+}
+
+func (k *failOn) HandleRead(ctx netty.InboundContext, m netty.Message) {
+	k.keepOpen.HandleRead(ctx, m)
+	if s, ok := m.(string); ok && strings.HasPrefix(s, "boom") {
+		panic(fmt.Errorf("application handler failed on %q", s))
+	}
+}
+
+// runPacketMode: packet-mode pipeline PacketCodec -> JSONCodec / TextCodec -> application. Each transport read
+// sequence up to io.EOF is one packet = one frame. A packet that ends in an exception (malformed JSON longer than the
+// decoder's read-ahead, or an application handler failing on the message) must not change what the following,
+// valid packets deliver.
+func runPacketMode(c *core.Ctx) {
+	total := c.Scale(240, 6000)
+	for i := 0; i < total; i++ {
+		if !c.Mine(i) {
+			continue
+		}
+		id := fmt.Sprintf("packet%d", i)
+		if !c.Case(id) {
+			continue
+		}
+		rng := c.Rand("packet", i)
+		useJSON := i%2 == 0
+		rec := &failOn{}
+		tr := mon.NewRecTransport()
+		hs := []netty.Handler{frame.PacketCodec([]int{0, 16, 128, 4096}[rng.Intn(4)])}
+		if useJSON {
+			hs = append(hs, format.JSONCodec(rng.Intn(2) == 0, false))
+		} else {
+			hs = append(hs, format.TextCodec())
+		}
+		hs = append(hs, rec)
+		k := 3 + rng.Intn(4)
+		var want []string
+		var kinds []string
+		for p := 0; p < k; p++ {
+			var wire []byte
+			kind := "valid"
+			if p < k-1 && rng.Intn(3) == 0 {
+				kind = "failing"
+			}
+			switch {
+			case useJSON && kind == "valid":
+				wire = []byte(fmt.Sprintf(`{"id":"p%d-%d","n":%d}`, i, p, p))
+				want = append(want, fmt.Sprintf("p%d-%d", i, p))
+			case useJSON:
+				// malformed from its first bytes on, and longer than what the JSON decoder reads ahead; what follows the
+				// broken part would be a perfectly valid object
+				pad := strings.Repeat(" ", []int{0, 100, 600, 2000}[rng.Intn(4)])
+				wire = []byte(`{"broken":,}` + pad + fmt.Sprintf(`{"id":"ghost-%d-%d","n":666}`, i, p))
+			case kind == "valid":
+				wire = []byte(fmt.Sprintf("text-%d-%d-%s", i, p, strings.Repeat("x", rng.Intn(700))))
+				want = append(want, string(wire))
+			default:
+				wire = []byte(fmt.Sprintf("boom-%d-%d", i, p))
+				want = append(want, string(wire)) // delivered; the application then fails on it
+			}
+			kinds = append(kinds, kind)
+			var steps []mon.ReadStep
+			for w := wire; len(w) > 0; {
+				n := 1 + rng.Intn(len(w))
+				steps = append(steps, mon.ReadStep{Data: w[:n]})
+				w = w[n:]
+			}
+			if rng.Intn(2) == 0 {
+				steps[len(steps)-1].WithErr = io.EOF
+			} else {
+				steps = append(steps, mon.ReadStep{WithErr: io.EOF})
+			}
+			tr.Feed(steps...)
+		}
+		rig := mon.NewRig(mon.RigOpts{Mode: mon.Sync, NoPark: true, NoHooks: true, Tr: tr, Handlers: hs})
+		ok := false
+		for dl := time.Now().Add(10 * time.Second); time.Now().Before(dl); {
+			if tr.ScriptExhausted() && tr.InRead() > 0 {
+				ok = true
+				break
+			}
+			time.Sleep(50 * time.Microsecond)
+		}
+		rig.Ch.Close(nil)
+		rig.Ex.WaitOutstanding(0, 5*time.Second)
+		rig.Dispose()
+		if !ok {
+			c.Inconclusive(id, "watchdog: packet script not consumed")
+			continue
+		}
+		rec.mu.Lock()
+		var got []string
+		for _, m := range rec.msgs {
+			switch v := m.(type) {
+			case map[string]interface{}:
+				got = append(got, fmt.Sprint(v["id"]))
+			case string:
+				got = append(got, v)
+			default:
+				got = append(got, fmt.Sprintf("%T", m))
+			}
+		}
+		nexc := len(rec.excs)
+		rec.mu.Unlock()
+		codec := map[bool]string{true: "json", false: "text"}[useJSON]
+		c.Count("packet_mode_sequences", 1)
+		c.Count("packet_mode_packets", int64(k))
+		c.Sig("packet-mode", codec, fmt.Sprint(kinds))
+		if fmt.Sprint(got) != fmt.Sprint(want) {
+			c.Violation("C16:packet-mode-message-differs-after-a-failed-packet:"+codec, id,
+				fmt.Sprintf("PacketCodec -> %s codec, packets %v on a channel that stays open: delivered %s, want %s (%d exceptions)", codec, kinds, abbrev(got), abbrev(want), nexc),
+				map[string]interface{}{"codec": codec, "packets": kinds})
+		}
+	}
+}
+
+func abbrev(ss []string) string {
+	out := make([]string, len(ss))
+	for i, s := range ss {
+		if len(s) > 40 {
+			s = s[:40] + fmt.Sprintf("...(%d bytes)", len(s))
+		}
+		out[i] = s
+	}
+	return fmt.Sprintf("%q", out)
 }
 
 var _ = binary.BigEndian
